@@ -101,7 +101,9 @@ PROPS = {
     'C06': {
         'level': 'other',
         'proof': [('contracts.value_classes', None)],
-        'custom': [('contracts.b_structs', 'bounded_value_classes')],
+        'custom': [('contracts.b_structs', 'bounded_value_classes'),
+                   # the input-immutability clauses of the dataset derivations (the rest of that check serves C14)
+                   ('contracts.b_data', 'bounded_dataset_derivations', None, r'is not modified|input model')],
         'assumptions': [PY_SUBSET],
         'explanation': 'eq-refl / eq-sym / eq=>hash laws proved for 11 value classes by symbolic execution of '
                        'their real __eq__/__hash__; every value class (25) and the well-formedness of created '
